@@ -4,7 +4,7 @@
     invariant over every schedule, history and buffer-size sequence. *)
 From Coq Require Import List NArith Arith Bool.
 From LS Require Import Faults.Resumable Faults.Upload Faults.Restore.
-From LS Require Export Faults.RProofs Faults.UProofs Faults.ResProofs Faults.CProofs.
+From LS Require Export Faults.RProofs Faults.UProofs Faults.ResProofs Faults.CProofs Faults.BProofs.
 Import ListNotations.
 
 (** C10 *)
@@ -23,3 +23,6 @@ Definition l0_gapless := l0_gapless_thm.
 Definition pos_truthful := pos_truthful_thm.
 Definition catch_up := catch_up_thm.
 Definition compact_no_partial_publish := @compact_no_partial_publish_thm.
+Definition ack_means_in_sync := ack_means_in_sync_thm.
+Definition init_listing_error_propagates := init_listing_error_propagates_thm.
+Definition catch_up_after_reopen := catch_up_after_reopen_thm.
